@@ -110,6 +110,34 @@ def t1_final_rounding(ctx: Ctx):
         ctx.check(good, REALS, f, f'RealFloat.{m}', 'num_randbits == 0 -> deterministic; otherwise stochastic with the same (p, n, emin, rm, rng, exact)', 'dispatch changed')
 
 
+def _probe_operand(fn: ast.FunctionDef, over: ast.If) -> str | None:
+    """None if the `.round(..., RTZ)` inside `over.test` is applied to the value the function's drawn rounding call
+    (`T = A.round(..., self.rm, self.num_randbits, ...)`) was applied to, with the same size arguments; else what differs."""
+    def is_round(k):
+        return isinstance(k, ast.Call) and isinstance(k.func, ast.Attribute) and k.func.attr == 'round' and isinstance(k.func.value, ast.Name)
+
+    def size_args(k: ast.Call):
+        pos = [norm(a) for a in k.args if norm(a) not in ('self.rm', 'RoundingMode.RTZ', 'self.num_randbits')]
+        kws = {kw.arg: norm(kw.value) for kw in k.keywords if kw.arg in ('max_p', 'min_n')}
+        return pos, kws
+    assigns = sorted((s for s in ast.walk(fn) if isinstance(s, ast.Assign) and len(s.targets) == 1 and isinstance(s.targets[0], ast.Name)), key=lambda s: s.lineno)
+    mains = [s for s in assigns if is_round(s.value) and any(norm(x) == 'self.num_randbits' for x in ast.walk(s.value))]
+    probes = [k for k in ast.walk(over.test) if is_round(k) and any(norm(x) == 'RoundingMode.RTZ' for x in ast.walk(k))]
+    if len(mains) != 1 or len(probes) != 1:
+        raise ShapeError(f'{fn.name}: {len(mains)} drawn rounding calls, {len(probes)} probes')
+    main, probe = mains[0], probes[0]
+    T, A, P = main.targets[0].id, main.value.func.value.id, probe.func.value.id    # type: ignore
+    if size_args(main.value) != size_args(probe):       # type: ignore
+        return f'the probe rounds with {size_args(probe)}, the draw with {size_args(main.value)}'   # type: ignore
+    later = lambda name, lo, hi: [s for s in assigns if s.targets[0].id == name and lo < s.lineno < hi]  # type: ignore  # noqa: E731
+    if P == A and T != A:
+        return None if not later(A, main.lineno, probe.lineno) else f'`{A}` is rebound between the rounding and the probe'
+    defs = [s for s in assigns if s.targets[0].id == P]     # type: ignore
+    if len(defs) == 1 and isinstance(defs[0].value, ast.Name) and defs[0].value.id == A and defs[0].lineno < main.lineno and not later(A, defs[0].lineno, main.lineno):
+        return None
+    return f'the probe rounds `{P}`, which is {"the already rounded result" if P == T else "not the operand"} of `{norm(main)[:60]}`'
+
+
 def t2_overflow_follows_the_draw(ctx: Ctx):
     """An operand between the largest value of a bounded format and the next point of its grid has that value and the
     infinity for neighbours; the draw picks one.  The overflow arm is only entered when the draw rounded away (toward
@@ -139,6 +167,12 @@ def t2_overflow_follows_the_draw(ctx: Ctx):
             ok = len(over) == 1 and len(used) == 1 and not direct
         ctx.check(ok, rel, fn, q, 'stochastic context: an overflow out of the gap above the largest value goes to the infinity whatever the base mode',
                   'the to-infinity decision asks the base mode only: under RTZ (RTN for positive operands) 0 of 2**k draws reach +inf for an operand past the largest value')
+        if not ok:
+            continue
+        # the toward-zero probe looks at the *operand*: the value the drawn rounding was applied to, at the same position
+        why = _probe_operand(fn, over[0])
+        ctx.check(why is None, rel, over[0].test, q, 'the toward-zero probe of the gap rounds the operand the draw was applied to, with the same precision and position',
+                  f'{why}: the probe no longer tells the gap above the largest value from the values beyond it, so the infinity is reached by every draw or by none')
     if n < 2:
         raise ShapeError(f'only {n} bounded stochastic families found')
 
@@ -207,6 +241,10 @@ from ..selftest import Mutant  # noqa: E402
 CTX = 'fpy2/number/context/'
 
 MUTANTS = [
+    Mutant('probe-rounds-the-rounded-value', CTX + 'mpb_fixed.py', "        operand = xr\n        xr = xr.round(min_n=n, rm=self.rm,", "        xr = xr.round(min_n=n, rm=self.rm,", 'C17.T2',
+           'seeded change C17d (with the probe on `xr`): every draw of an operand in the top gap gives the largest value', count=1),
+    Mutant('probe-rounds-the-rounded-value-float', CTX + 'mpb_float.py', "                        x.round(self.pmax, n, RoundingMode.RTZ)", "                        rounded.round(self.pmax, n, RoundingMode.RTZ)", 'C17.T2'),
+    Mutant('probe-at-another-position', CTX + 'mpb_float.py', "                        x.round(self.pmax, n, RoundingMode.RTZ)", "                        x.round(self.pmax, self.nmin, RoundingMode.RTZ)", 'C17.T2'),
     Mutant('representable-operand-skips-the-draw', CTX + 'mp_fixed.py', "        # step 3. round value based on rounding parameters\n        xr = xr.round(min_n=n,",
            "        if xr.exp > n:\n            return Float(s=xr.s, exp=xr.exp, c=xr.c, ctx=self)\n        xr = xr.round(min_n=n,", 'C17.P3',
            'seeded change C17c: four draws instead of seven for seven roundings, later results shift'),
